@@ -429,7 +429,7 @@ class CFG:
     def dominated_by(self, n: int, d: int) -> bool:
         return d in self.dominators().get(n, set())
 
-    def paths_avoiding(self, src: int, dst_pred: Callable[[Node], bool], avoid: Callable[[Node], bool]) -> Optional[List[int]]:
+    def paths_avoiding(self, src: int, dst_pred: Callable[[Node], bool], avoid: Callable[[Node], bool], skip_edge: Optional[Callable[[Node, Node, str], bool]] = None) -> Optional[List[int]]:
         """A path from src to a node satisfying dst_pred that passes through no `avoid` node."""
         prev = {src: None}
         todo = [src]
@@ -441,7 +441,9 @@ class CFG:
                     p.append(n)
                     n = prev[n]
                 return list(reversed(p))
-            for m, _ in self.succ[n]:
+            for m, lab in self.succ[n]:
+                if skip_edge is not None and skip_edge(self.nodes[n], self.nodes[m], lab):
+                    continue
                 if m not in prev and not avoid(self.nodes[m]):
                     prev[m] = n
                     todo.append(m)
